@@ -35,7 +35,14 @@ func init() {
 	reg.Register(&reg.Prop{ID: "C20", Level: "exploration", Main: Main, Replay: Replay})
 }
 
-const repoDir = "/repo"
+// repoDir is the tree the binary is built from: /repo, or the scratch copy ./check was
+// pointed at with VERIF_REPO (seeded-break validation).
+var repoDir = func() string {
+	if d := os.Getenv("VERIF_REPO"); d != "" {
+		return d
+	}
+	return "/repo"
+}()
 
 // ---------------------------------------------------------------------------------------
 // configuration of one instance of the binary
@@ -92,7 +99,7 @@ func swapCase(s string) string {
 	return string(b)
 }
 
-// classes returns the bad header values for (login, pass); the first six are the quick tier.
+// classes returns the bad header values for (login, pass); the first quickClasses are the quick tier.
 func classes(login, pass string) []hdrClass {
 	basic := func(up string) []string { return []string{"Basic " + b64(up)} }
 	right := b64(login + ":" + pass)
@@ -103,6 +110,7 @@ func classes(login, pass string) []hdrClass {
 		{"wrong-password", basic(login + ":" + "nope" + pass), false},
 		{"password-prefix", basic(login + ":" + pass[:len(pass)-1]), false},
 		{"wrong-user", basic("x" + login + ":" + pass), false},
+		{"base64-trailing-garbage", []string{"Basic " + right + "*!*!"}, true},
 		// thorough tier
 		{"empty", []string{""}, true},
 		{"bearer-right-b64", []string{"Bearer " + right}, true},
@@ -128,7 +136,6 @@ func classes(login, pass string) []hdrClass {
 		{"space-after-password", basic(login + ":" + pass + " "), false},
 		{"space-around-colon", basic(login + " : " + pass), false},
 		{"base64-garbage-inside", []string{"Basic " + right[:2] + "*" + right[2:]}, true},
-		{"base64-trailing-garbage", []string{"Basic " + right + "*!*!"}, true},
 		{"two-headers-first-wrong", []string{"Basic " + b64(login+":nope"), "Basic " + right}, false},
 		{"two-headers-first-bearer", []string{"Bearer x", "Basic " + right}, true},
 	}
@@ -147,7 +154,7 @@ func classes(login, pass string) []hdrClass {
 	return out
 }
 
-const quickClasses = 6
+const quickClasses = 7
 
 // ---------------------------------------------------------------------------------------
 // the rig
@@ -550,6 +557,7 @@ func runInstance(c *run.Ctx, bin string, cfg instCfg, flt *filter, st *stats, ro
 
 	// the walk list
 	var targets []*target
+	dupTarget := map[string]bool{}
 	skipped := 0
 	for _, r := range in.routes {
 		if !r.HasHandler {
@@ -565,6 +573,12 @@ func runInstance(c *run.Ctx, bin string, cfg instCfg, flt *filter, st *stats, ro
 			ms = []string{"GET", "POST"}
 		}
 		for _, m := range ms {
+			if dupTarget[r.Template+"|"+m] {
+				// registered twice: mux serves the first registration, the second is shadowed
+				c.Event("shadowed_duplicate_registrations", 1)
+				continue
+			}
+			dupTarget[r.Template+"|"+m] = true
 			targets = append(targets, &target{r: r, method: m})
 		}
 	}
@@ -749,7 +763,7 @@ func runInstance(c *run.Ctx, bin string, cfg instCfg, flt *filter, st *stats, ro
 		if hung[t.r.Template+"|"+t.method] || condemned[rk] {
 			// the handler of this route is known not to answer (authorized phase): if the request
 			// got through, waiting long would tell nothing more
-			to = 3 * time.Second
+			to = 2 * time.Second
 		}
 		before := in.srv.Seq()
 		a := in.send(method, u, hc.Values, cb, ct, body, extra, to)
@@ -806,6 +820,7 @@ func runInstance(c *run.Ctx, bin string, cfg instCfg, flt *filter, st *stats, ro
 		}
 		if a.BadGzip {
 			c.Undecided("undecodable gzip body")
+			c.Note(fmt.Sprintf("undecodable gzip body: %s -> %d, %d bytes", what, a.Status, len(a.Body)))
 		}
 		handlerBody := t.ref != "" && strings.Contains(a.Body, t.ref)
 		qs := in.srv.Interactions(before)
